@@ -31,8 +31,8 @@ PLAN = {
 # properties whose unbounded theorems cover only part of the statement (what is missing is decided by the
 # correspondence + oracle on every run and spelled out in MANIFEST.json / DESIGN.md)
 PARTIAL = {
+    "C09": "the numeric message bound is proved for component and parent-link traffic (host and client writers); for entity and asset traffic the theorems are the no-echo invariants of C01 / C06, the count is an oracle check",
     "C01": "convergence is proved for spawn epochs (with clients leaving); histories with despawns from arbitrary peers: step laws only",
-    "C09": "the numeric message bound is proved for host-writer epochs; for client-writer epochs only 'no echo' is proved",
 }
 
 TRUSTED = [
